@@ -71,6 +71,9 @@ def obligations(tier):
                       bounds=f"forall 0<H<L; n={n}, rpc in 1..{rr[-1]}, monotone row lists of length<={min(n, 3 if q else 4)}",
                       harness="harness/h_image.py", func="rows_ok", params={"n": n, "rpcs": rr, "maxrows": min(n, 3 if q else 4)},
                       timeout=400 if q else 1200))
+    obs.append(Ob("C01.e2e", "E", "witness replay through open_alos2: header shape and bit-exact samples (NaN payloads, +-inf, -0.0, 0, 32768, 65535) for 1xN, Nx1 and NxM images, "
+                  "rpc below/at/above the line count and 1024, local path / file:// / memory://", ["ceos_alos2.xarray:open_alos2", "ceos_alos2.array:Array.__getitem__", "ceos_alos2.array:parse_data"],
+                  bounds="concrete replays (not the deciding step)", call="props.e2e:ob_pixels", wall_timeout=900))
     return obs
 
 
